@@ -1,7 +1,7 @@
 SPECIFICATION GSpec
 CONSTANTS
   Layouts = {20, 30}
-  Excs = {"hardware", "other"}
+  Excs = {"other"}
   Depth = 5
   Depth2 = 4
   Upd = {}
